@@ -495,6 +495,32 @@ def run(R, P="C09"):
                 "%s is memoised (@%s): the table is keyed by the argument's __eq__/__hash__, so equal-comparing bound methods of different instances share "
                 "one answer - get_async_fn(b.m) returns a.m's .asynq and the body runs with the wrong self - and an unhashable callable makes the helper raise"
                 % (f.name, memo[0] if memo else ""))
+    # is_pure_async_fn(): every exit is the object's own answer, False, or the answer obtained for the wrapped function (which is also what
+    # is memoised on the wrapper) - a first call that returns nothing while later calls use the memo classifies one object two ways
+    ipf = repo.fn("decorators.is_pure_async_fn")
+    p0_ = q.param_names(ipf.node)[0]
+    for rn in [x for x in q.scope_nodes(ipf.node) if isinstance(x, ast.Return)]:
+        v = rn.value
+        okv = False
+        if v is not None:
+            if isinstance(v, ast.Constant) and v.value is False:
+                okv = True
+            elif isinstance(v, ast.Call) and q.src(v) == "%s.is_pure_async_fn()" % p0_:
+                okv = True
+            elif isinstance(v, ast.Call) and q.call_name(v) == "is_pure_async_fn" and [q.src(a) for a in v.args] == ["%s.fn" % p0_]:
+                okv = True
+            elif isinstance(v, ast.Name):
+                vals_ = common.assigned_values(ipf.node, v.id)
+                okv = bool(vals_) and all(k_ == "expr" and isinstance(e_, ast.Call) and q.call_name(e_) == "is_pure_async_fn" and [q.src(a) for a in e_.args] == ["%s.fn" % p0_]
+                                          for k_, e_ in vals_)
+                # the memo stored on the wrapper agrees with what is returned
+                for n_ in q.scope_nodes(ipf.node):
+                    if isinstance(n_, ast.Assign) and isinstance(n_.value, ast.IfExp) and q.src(n_.value.test) == v.id:
+                        okv = okv and q.src(n_.value.body).endswith("true_fn") and q.src(n_.value.orelse).endswith("false_fn")
+        R.check(okv, P + ".CLASSIFY", "decorators.is_pure_async_fn:returns:%s" % q.stmt_key(rn)[:40], R.site(ipf, rn),
+                "is_pure_async_fn returns `%s`: the object's own answer, False, or the wrapped function's answer" % (q.src(v) if v is not None else None),
+                "is_pure_async_fn returns `%s`: the first classification of a wrapper disagrees with the memoised one used afterwards (or is not a boolean at all)"
+                % (q.src(v) if v is not None else None))
     for fq, want in (("decorators.get_async_fn", ["fn.asynq", "getattr(fn, 'async')", "fn", "sync_to_async_fn_wrapper", "None"]),
                      ("decorators.get_async_or_sync_fn", ["fn.asynq", "getattr(fn, 'async')", "fn"])):
         f = repo.fn(fq)
